@@ -357,6 +357,11 @@ func (w *fsWallet) loadWalletFile(ctx context.Context, addr ethtypes.Address0xHe
 		log.L(ctx).Errorf("Failed to read '%s' (bad keystorev3 file): %s", w.conf.DefaultPasswordFile, err)
 		return nil, i18n.NewError(ctx, signermsgs.MsgWalletFailed, addr)
 	}
+	if kv3.KeyPair().PrivateKey.Key.IsZero() {
+		// zero (modulo the group order) is not a secp256k1 private key: what it signs recovers to no address
+		log.L(ctx).Errorf("Key file for address %s holds an invalid (zero) private key", addr)
+		return nil, i18n.NewError(ctx, signermsgs.MsgWalletFailed, addr)
+	}
 	log.L(ctx).Infof("Loaded signing key for address: %s", addr)
 	return kv3, nil
 
